@@ -270,6 +270,13 @@ func runFetchCase(o *out, r *rand.Rand, adversarial bool) {
 		fc.objects[base.String()] = po
 		objs = append(objs, po)
 	}
+	for _, po := range objs {
+		segs := make(enc.Wire, len(po.segs))
+		for i, b := range po.segs {
+			segs[i] = b
+		}
+		o.pf("OBJ %s %s\n", nameStr(po.base), wireStr(segs))
+	}
 	lossy := r.Intn(3) == 0
 	maxConsumes := 1 + r.Intn(3)
 	consumes := 0
